@@ -273,6 +273,9 @@ class AxisScope(object):
                 out |= self.tag(f.value, at, depth + 1) if not isinstance(f.value, ast.Name) or f.value.id not in ('helpers', 'linalg', 'math', 'utilities', 'knotvector', 'compatibility', 'copy') else set()
             return out
         if isinstance(e, (ast.ListComp, ast.GeneratorExp)):
+            if isinstance(e.elt, ast.Constant) or (isinstance(e.elt, ast.List) and not e.elt.elts):
+                # placeholder list: its direction is the direction of its length
+                return self._iter_tag(e.generators[0].iter, e, depth + 1)
             return self.tag(e.elt, e.elt, depth + 1)
         out = set()
         for c in ast.iter_child_nodes(e):
@@ -297,6 +300,8 @@ class AxisScope(object):
         supplied by callers through ret_tags)"""
         if isinstance(val, ast.Call):
             rt = getattr(self, 'ret_tags', {}).get(norm(val.func).split('.')[-1])
+            if rt is None and getattr(self, 'ret_tag_source', None) is not None:
+                rt = self.ret_tag_source(norm(val.func).split('.')[-1])
             if rt and pos < len(rt):
                 return set(rt[pos])
             if rt is None:
